@@ -100,6 +100,21 @@ def extractCore (g : Topo) (c : List Nat) : Except Err Sub :=
 def extract (g : Topo) (c : List Nat) (sort : Bool) : Except Err Sub :=
   extractCore g (if sort then isort c else c)
 
+/-! ### geometric input of faces and cells (what `compute_geometry` reads) -/
+
+/-- node coordinates of the sub-grid: `g.nodes[:, unique_nodes]` -/
+def subCoords (coords : List (List Rat)) (nodeMap : List Nat) : List (List Rat) :=
+  nodeMap.map (fun n => coords.getD n [])
+
+/-- geometric input of a face: the coordinates of its nodes, in stored order -/
+def faceData (fn : List (List Nat)) (coords : List (List Rat)) (f : Nat) : List (List Rat) :=
+  (fn.getD f []).map (fun n => coords.getD n [])
+
+/-- geometric input of a cell: its faces in stored order, each with its sign and its node coordinates -/
+def cellData (cfF : List (List Nat)) (cfS : List (List Int)) (fn : List (List Nat))
+    (coords : List (List Rat)) (c : Nat) : List (Int × List (List Rat)) :=
+  ((cfF.getD c []).zip (cfS.getD c [])).map (fun p => (p.2, faceData fn coords p.1))
+
 /-- boolean-mask entry of `extract_subgrid` -/
 def extractMask (g : Topo) (mask : List Bool) (sort : Bool) : Except Err Sub :=
   if mask.length ≠ g.cfFaces.length then .error .index else extract g (whereTrue mask) sort
@@ -329,6 +344,38 @@ def axisMargin (a : Axis) (x : Rat) : Rat :=
   ((List.range (a.c + 1)).map (fun (k : Nat) =>
       let d := x - (a.lo + (a.hi - a.lo) / (a.c : Rat) * (k : Rat)); if d < 0 then -d else d)).foldl
     (fun m d => if d < m then d else m) (if a.hi - a.lo < 0 then a.lo - a.hi else a.hi - a.lo)
+
+/-! ### `subgrid_to_grid_mapping` and the `partition` wrapper -/
+
+/-- `expand_indices_nd(ind, nd)` (Fortran order): index `i` becomes `nd*i, …, nd*i + nd-1` -/
+def expandNd (ind : List Nat) (nd : Nat) : List Nat :=
+  ind.flatMap (fun i => (List.range nd).map (fun d => nd * i + d))
+
+/-- `subgrid_to_grid_mapping`: both results are 0/1 selection matrices, given here by the position of the
+    single one in every column of `face_map` (shape `numFaces·nd × len·nd`) and in every row of `cell_map`
+    (shape `len·nd × numCells·nd`); scalar case `nd = 1`.  scipy refuses indices beyond the shape. -/
+def subgridToGrid (numFaces numCells : Nat) (locFaces locCells : List Nat) (nd : Nat) :
+    Except Err (List Nat × List Nat) :=
+  let fr := expandNd locFaces nd
+  let cc := expandNd locCells nd
+  if fr.any (fun i => decide (numFaces * nd ≤ i)) || cc.any (fun i => decide (numCells * nd ≤ i)) then .error .value
+  else .ok (fr, cc)
+
+/-- `partition(g, num_coarse)` without pymetis on a tensor grid: `partition_structured(g, num_part=num_coarse)` -/
+def partitionWrapperTensor (num : Nat) (fine : List Nat) : Except Err (List Int) :=
+  match dcd exactRoot num fine with
+  | .error e => .error e
+  | .ok c => partitionStructured fine c
+
+/-- decidable form of the hypothesis `1 ≤ coarse ≤ fine` of the `partition_structured` theorems -/
+def dimsOkB (fine coarse : List Nat) : Bool :=
+  (fine.zip coarse).all (fun q => decide (1 ≤ q.2) && decide (q.2 ≤ q.1))
+
+/-- decidable form of the hypothesis of `partition_coordinates_total` for one centre -/
+def allOkB : List Axis → List Rat → Bool
+  | a :: as, x :: xs => decide (1 ≤ a.c) && decide (a.lo ≤ x) && decide (x < a.hi) && allOkB as xs
+  | [], [] => true
+  | _, _ => false
 
 /-! ### (c) `overlap` -/
 
